@@ -291,3 +291,50 @@ func quote(name string) string {
 	name = strings.ReplaceAll(name, "\\", "!")
 	return "|" + name + "|"
 }
+
+// sForallPat builds a universally quantified formula with explicit triggers: every maximal
+// (select X v) term of `src` whose index is exactly the bound variable.
+func sForallPat(v, body, src string) string {
+	pats := barePatterns(src, v)
+	if len(pats) == 0 {
+		return sForall(v, body)
+	}
+	var b strings.Builder
+	b.WriteString("(forall ((" + v + " Int)) (! " + body)
+	for _, p := range pats {
+		b.WriteString(" :pattern (" + p + ")")
+	}
+	b.WriteString("))")
+	return b.String()
+}
+
+func barePatterns(s, v string) []string {
+	seen := map[string]bool{}
+	var out []string
+	var walk func(e string)
+	walk = func(e string) {
+		if !strings.HasPrefix(e, "(") {
+			return
+		}
+		inner := e[1 : len(e)-1]
+		parts := splitTop(inner)
+		if len(parts) == 0 {
+			return
+		}
+		if parts[0] == "forall" || parts[0] == "exists" {
+			return // nested binder: do not look inside
+		}
+		if parts[0] == "select" && len(parts) == 3 && parts[2] == v && !strings.Contains(parts[1], v) {
+			if !seen[e] {
+				seen[e] = true
+				out = append(out, e)
+			}
+			return
+		}
+		for _, p := range parts[1:] {
+			walk(p)
+		}
+	}
+	walk(s)
+	return out
+}
